@@ -254,7 +254,7 @@ PROPS['C06'] = {
     'undecided_clauses': [
         'numeric clauses: centre of mass within rounding tolerance, convex-hull containment, covariance under translation and uniform scaling, polygon ring formula accuracy',
         'mixed-dimension GeometryCollections through the public API (recursive Geometry enum: neither CBMC nor the Verus unit); the accumulator they feed IS under contract, and the dimension-dominance rule is proved for any sequence of contributions (lemma_fold_dominance)',
-        'add_ring (polygon ring formula: iterator fold with closures), add_rect / add_triangle, the final division accumulated / weight',
+        'add_ring (polygon ring formula: iterator fold with closures), add_triangle, the final division accumulated / weight',
     ],
 }
 
